@@ -35,7 +35,7 @@ CHECKS = {
    design="DESIGN.md section 2 / C13"),
  "C01": dict(
    technique="reference-model runtime monitor: generated well-typed programs are compiled by the real compiler in 4 configurations and every execution is judged against an independent source-level interpreter",
-   text="Exploration: ~10^5 generated programs per quick run (expressions, all operators with and without redundant parentheses, casts, if/match/blocks, let/let mut with and without annotation, nested assignments, loops incl. over zero-sized elements and empty arrays, calls with colliding names, top-level consts shadowed by parameters and locals, arrays/ranges/tuples/structs/enums), 24-48 boundary-biased argument tuples each, SSA and register form, dedup on and off; values compared through an independent codec and cross-checked with parse_arg / eval / parse_output.",
+   text="Exploration: ~10^5 generated programs per quick run (expressions, all operators with and without redundant parentheses, casts, if/match/blocks, let/let mut with and without annotation, nested assignments, loops incl. over zero-sized elements and empty arrays, calls with colliding names, top-level consts shadowed by parameters and locals, arrays/ranges/tuples/structs/enums), 24-48 boundary-biased argument tuples each, SSA and register form, dedup on and off; values compared through an independent codec and cross-checked with parse_arg / eval / parse_output; one case in eight is a for-join program, one in sixteen returns join(a, b) on sorted inputs and is judged by the oracle of the join built-in.",
    note="Trusted: the reference interpreter (Appendix A of DESIGN.md) and the harness codec/evaluators. Programs beyond the size bounds and argument values not sampled are not covered. Executions touching a listed known finding are skipped and counted.",
    design="DESIGN.md section 2 / C01"),
  "C02": dict(
